@@ -2,45 +2,74 @@ import VermouthProofs.C17_Annot
 namespace C17
 
 /-! residue order -/
-theorem residues_mem_iff (m : Mol) (r : Nat) : r ∈ residues m ↔ ∃ a ∈ m, a.res = r := by sorry
-theorem residues_nodup (m : Mol) : (residues m).Nodup := by sorry
-theorem residues_sorted (m : Mol) : (residues m).Pairwise (fun r s => minKey m r ≤ minKey m s) := by sorry
-theorem minKey_le (m : Mol) (a : Atom) (h : a ∈ m) : minKey m a.res ≤ a.key := by sorry
-theorem minKey_attained (m : Mol) (r : Nat) (h : r ∈ residues m) : ∃ a ∈ m, a.res = r ∧ a.key = minKey m r := by sorry
+theorem residues_mem_iff (m : Mol) (r : Nat) : r ∈ residues m ↔ ∃ a ∈ m, a.res = r :=
+  mem_residues m r
+theorem residues_nodup (m : Mol) : (residues m).Nodup := nodup_residues m
+theorem residues_sorted (m : Mol) : (residues m).Pairwise (fun r s => minKey m r ≤ minKey m s) :=
+  sorted_residues m
+theorem minKey_le (m : Mol) (a : Atom) (h : a ∈ m) : minKey m a.res ≤ a.key :=
+  minKey_le_key m a h
+theorem minKey_attained (m : Mol) (r : Nat) (h : r ∈ residues m) : ∃ a ∈ m, a.res = r ∧ a.key = minKey m r :=
+  minKey_attained' m r ((mem_residues m r).mp h)
 
 /-! length reconciliation -/
 theorem reconcile_length (L seq sequence : List Nat) (h : reconcile L seq = .ok sequence) :
-    sequence.length = L.sum := by sorry
+    sequence.length = L.sum :=
+  reconcile_length' L seq sequence h
 theorem reconcile_exact (L seq : List Nat) (h1 : seq.length = L.sum) (h2 : seq.length ≠ 1)
     (h3 : ¬ (L ≠ [] ∧ allEqual L = true ∧ seq.length = L.headD 0)) :
-    reconcile L seq = .ok seq := by sorry
+    reconcile L seq = .ok seq :=
+  reconcile_exact' L seq h1 h2 h3
 theorem reconcile_one (L : List Nat) (v : Nat) (h : L ≠ []) :
-    reconcile L [v] = .ok (List.replicate L.sum v) := by sorry
+    reconcile L [v] = .ok (List.replicate L.sum v) :=
+  reconcile_one' L v h
 theorem reconcile_per_molecule (L seq : List Nat) (h1 : L ≠ []) (h2 : allEqual L = true)
     (h3 : seq.length = L.headD 0) :
     reconcile L seq = .ok (repeatSeq seq L.length) ∧
-      ∀ j k, j < L.length → k < seq.length → (repeatSeq seq L.length)[j * seq.length + k]? = seq[k]? := by sorry
+      ∀ j k, j < L.length → k < seq.length → (repeatSeq seq L.length)[j * seq.length + k]? = seq[k]? :=
+  reconcile_per_molecule' L seq h1 h2 h3
 theorem reconcile_mismatch (L seq : List Nat) (h1 : seq.length ≠ L.sum) (h2 : seq.length ≠ 1)
     (h3 : ¬ (L ≠ [] ∧ allEqual L = true ∧ seq.length = L.headD 0)) :
-    reconcile L seq = .error .valueerror := by sorry
-theorem reconcile_nothing_selected (seq : List Nat) (h : seq ≠ []) : reconcile [] seq = .error .valueerror := by sorry
+    reconcile L seq = .error .valueerror :=
+  reconcile_mismatch' L seq h1 h2 h3
+theorem reconcile_nothing_selected (seq : List Nat) (h : seq ≠ []) : reconcile [] seq = .error .valueerror :=
+  reconcile_nothing_selected' seq h
 
 /-! the system -/
 theorem length_mismatch_error (sys : Sys) (seq : List Nat) (h : reconcile (selLengths sys) seq = .error .valueerror) :
-    annotateSystem sys seq = .error .valueerror := by sorry
+    annotateSystem sys seq = .error .valueerror :=
+  annotateSystem_error sys seq _ h
 
 /-- a sequence accepted by the length reconciliation is applied without any further error -/
 theorem annot_ok_of_reconciled (sys : Sys) (seq sequence : List Nat) (h : reconcile (selLengths sys) seq = .ok sequence) :
-    ∃ sys', annotateSystem sys seq = .ok sys' := by sorry
+    ∃ sys', annotateSystem sys seq = .ok sys' :=
+  ⟨_, annotateSystem_eq_walk sys seq sequence h⟩
 
 theorem unselected_untouched (sys sys' : Sys) (seq : List Nat) (h : annotateSystem sys seq = .ok sys') :
-    sys'.length = sys.length ∧ ∀ (i : Nat) (m : Mol), sys[i]? = some (false, m) → sys'[i]? = some (false, m) := by sorry
+    sys'.length = sys.length ∧ ∀ (i : Nat) (m : Mol), sys[i]? = some (false, m) → sys'[i]? = some (false, m) := by
+  obtain ⟨sequence, hr⟩ := annotateSystem_ok_reconcile sys sys' seq h
+  rw [annotateSystem_eq_walk sys seq sequence hr] at h
+  injection h with h
+  subst h
+  exact ⟨walk_length sequence 0 sys, fun i m hi => walk_unselected sequence 0 sys i m hi⟩
 
 theorem annot_alignment (sys sys' : Sys) (seq : List Nat) (h : annotateSystem sys seq = .ok sys') :
     ∃ sequence, reconcile (selLengths sys) seq = .ok sequence ∧
       ∀ (i : Nat) (m : Mol), sys[i]? = some (true, m) →
         sys'[i]? = some (true, annotated m sequence (offset sys i)) ∧
-        ∀ a ∈ m, offset sys i + (residues m).idxOf a.res < sequence.length := by sorry
+        ∀ a ∈ m, offset sys i + (residues m).idxOf a.res < sequence.length := by
+  obtain ⟨sequence, hr⟩ := annotateSystem_ok_reconcile sys sys' seq h
+  rw [annotateSystem_eq_walk sys seq sequence hr] at h
+  injection h with h
+  subst h
+  refine ⟨sequence, hr, fun i m hi => ⟨?_, fun a ha => ?_⟩⟩
+  · have := walk_selected sequence 0 sys i m hi
+    rwa [Nat.zero_add] at this
+  · have hb := offset_bound sys i m hi
+    have hlen := reconcile_length' _ _ _ hr
+    have hmem : a.res ∈ residues m := (mem_residues m a.res).mpr ⟨a, ha, rfl⟩
+    have := List.idxOf_lt_length_iff.mpr hmem
+    omega
 
 /-- finding F-C17-1, stated on the model of the unrepaired loop: an unselected molecule in front
 of a selected one receives the annotation -/
